@@ -11,8 +11,11 @@ CFG = dict(
               # Props/C17More.lean
               "halfAngle_rotate", "normalized_dot_self", "quat_fromTheta_rodrigues", "quat_fromTheta_fixes_axis", "quat_fromTheta_angle",
               "trs_new", "trs_position", "trs_scale", "trs_rotation", "trs_translate", "matFromDirs_frame",
-              "aabb_intersects_iff", "aabb_expand_minmax", "aabb_expand_contains", "aabb_volume", "aabb_closestPoint_minimises"],
-    modules=["PolyVerif.Props.C17", "PolyVerif.Props.C17More"],
+              "aabb_intersects_iff", "aabb_expand_minmax", "aabb_expand_contains", "aabb_volume", "aabb_closestPoint_minimises",
+              # Props/C17FromPoints.lean (round 2): about the REGENERATED Gen.geometry.NewAABBFromPoints
+              "aabb_newFromPoints_fold", "aabb_newFromPoints_min", "aabb_newFromPoints_max", "aabb_newFromPoints_eq_model",
+              "aabb_newFromPoints_contains_all", "aabb_newFromPoints_tight", "aabb_newFromPoints_least"],
+    modules=["PolyVerif.Props.C17", "PolyVerif.Props.C17More", "PolyVerif.Props.C17FromPoints"],
     streams=[dict(name="c17", n=dict(quick=300, thorough=20000),
                   ulps={"c17.quat.fromtheta": (8, 1e-15), "c17.quat.rotationto": (8, 1e-15)})],
     trusted=T_COMMON + ["sin/cos: Go math.Sin/Cos vs libm compared within 8 ulps (only FromTheta uses them)"],
